@@ -2,8 +2,8 @@
 text written to stdout and the final variable bindings are the same as executing the de-prompted source as an ordinary Python
 program".  Doctests are generated from a statement grammar (simple, compound, decorated, multi-line, async / top-level await,
 comments, expression statements) in every prompt style ('>>>' everywhere, '...' continuations, unprefixed lines inside a
-multi-line string), at indentation 0 / 4, with blank lines and prose between groups and no wants (code without a want never
-fails); the last statement prints every binding.  The REAL parser and DocTest.run must log exactly the stdout that a reference
+multi-line string), at indentation 0 / 4, with blank lines and prose between groups, without wants or with CORRECT wants (everything written since the previous want)
+after some of the groups; the last statement prints every binding.  The REAL parser and DocTest.run must log exactly the stdout that a reference
 execution of the de-prompted program writes (exec of the plain source in a fresh namespace)."""
 import ast
 import asyncio
@@ -48,8 +48,8 @@ def statement_starts(lines):
     return starts
 
 
-def render(groups, style, indent, rnd):
-    """(docstring text, plain program text)."""
+def render(groups, style, indent, rnd, wants=None):
+    """(docstring text, plain program text); wants: per group None or the text the group writes (placed as its want)."""
     pad = ' ' * indent
     doc = []
     plain = []
@@ -68,6 +68,8 @@ def render(groups, style, indent, rnd):
                 in_string = True
             if kind == 'string' and ln.endswith("'''") and j > 0:
                 in_string = False
+        if wants is not None and wants[gi] is not None:
+            doc.extend(pad + w for w in wants[gi].rstrip('\n').split('\n'))
         if gi < len(groups) - 1 and rnd.random() < 0.4:
             doc.extend(['', 'Some prose between the examples.', ''] if rnd.random() < 0.5 else [''])
     return '\n'.join(doc) + '\n', '\n'.join(plain) + '\n'
@@ -85,6 +87,22 @@ def reference(plain):
     return buf.getvalue()
 
 
+def reference_per_group(groups):
+    """What each group writes when the groups are executed one after the other in one namespace."""
+    ns = {'__name__': '__doctest_reference__'}
+    outs = []
+    for lines, _kind in groups:
+        buf = io.StringIO()
+        code = compile('\n'.join(lines) + '\n', '<reference>', 'exec', flags=ast.PyCF_ALLOW_TOP_LEVEL_AWAIT, dont_inherit=True)
+        with contextlib.redirect_stdout(buf):
+            if code.co_flags & 0x80:
+                asyncio.run(eval(code, ns))
+            else:
+                exec(code, ns)
+        outs.append(buf.getvalue())
+    return outs
+
+
 def run(eng, tier, seed):
     import importlib
     de = importlib.import_module('xdoctest.doctest_example')
@@ -100,7 +118,24 @@ def run(eng, tier, seed):
             groups.append(([ln.format(k=k0 + j) for ln in lines], kind))
         groups.append((FINAL, None))
         style = rnd.choice(['ps1', 'ps2', 'unprefixed'])
-        text, plain = render(groups, style, rnd.choice([0, 4]), rnd)
+        wants = None
+        if rnd.random() < 0.5:
+            # correct wants (everything written since the previous want) after some of the groups that write something
+            try:
+                outs = reference_per_group(groups)
+            except Exception as ex:      # noqa
+                cex = {'docsrc': repr(groups), 'problem': 'generator bug: %r' % (ex,)}
+                break
+            wants = []
+            pending = ''
+            for o in outs:
+                pending += o
+                if pending.strip() and '\n\n' not in pending and rnd.random() < 0.6:
+                    wants.append(pending)
+                    pending = ''
+                else:
+                    wants.append(None)
+        text, plain = render(groups, style, rnd.choice([0, 4]), rnd, wants)
         try:
             expected = reference(plain)
         except Exception as ex:      # noqa: the generator must produce programs that run
@@ -123,6 +158,6 @@ def run(eng, tier, seed):
             break
     return {'bounded': [{'name': 'C01.same-as-the-plain-program',
                          'bound': '%d generated doctests (1..5 statement groups of %d shapes, 3 prompt styles, indentation 0/4, prose and blank '
-                                  'lines between groups, no wants), stdout and final bindings compared with exec of the de-prompted source'
+                                  'lines between groups, without wants or with correct wants after some groups), stdout and final bindings compared with exec of the de-prompted source'
                                   % (n_docs, len(STATEMENTS)),
                          'evaluations': n, 'counterexample': cex}]}
